@@ -907,6 +907,15 @@ class Callable(BaseCallable):
 
         super().__init__(default_value, **metadata)
 
+    def validate(self, object, name, value):
+        """ Validates that the value is a Python callable, or None if
+        None is allowed.
+        """
+        if value is None and not self.fast_validate[1]:
+            self.error(object, name, value)
+
+        return super().validate(object, name, value)
+
 
 class BaseType(TraitType):
     """ A trait type whose value must be an instance of a Python type.
